@@ -80,3 +80,30 @@ func vpH_C01_T_group_key() {
 	_ = e.StopWithContext(context.Background(), StopOptions{DeleteKey: true})
 	vpAuditLog(st, "a", false, 0, true)
 }
+
+// vpH_C01_T_late_create_answer: a follower's Create wins the vacancy but its answer takes 300 ms; in that time a
+// takeover-enabled instance of priority 30 legitimately replaces the new record, and the follower's watcher
+// tells it so. When the answer finally arrives the instance believes it leads; its refreshes must go against
+// the revision of its own write (and so fail): it never overwrites the preemptor's record.
+func vpH_C01_T_late_create_answer() {
+	H := time.Second
+	vpSetOpt("rand-fixed", 1)
+	s := vpFollowingInstance(H, nil)
+	time.Sleep(700 * time.Millisecond)
+	vpQuiesce()
+	s.kv.createRespLat = 300 * time.Millisecond
+	s.kv.opLeft = 40
+	s.kv.afterApply = func(op string) {
+		if op == "create" && s.st.live() && s.st.writer == "a" {
+			s.st.write("env:z", "update", vpRecMk("z", "tok-z", 30), false, s.st.lastSeq)
+			vpEvent("z-preempted")
+		}
+	}
+	s.st.write("env:other", "delete", nil, true, 0)
+	time.Sleep(2*H + H/2)
+	vpQuiesce()
+	vpCover("C01.late-create-answer")
+	vpAssert("C01.mut.replace-strictly-higher", s.st.live() && s.st.writer == "env:z")
+	vpAuditLog(s.st, "a", false, 0, false)
+	_ = s.e.Stop()
+}
